@@ -8,7 +8,8 @@ Local Open Scope N_scope.
 Lemma g_step_base U t o : t_base (fst (g_step U t o)) = t_base t.
 Proof.
   destruct o; cbn; try reflexivity.
-  unfold g_cas. destruct (g_cas_lookup t on); [destruct (rv_hash_eqb r ov)|]; reflexivity.
+  - unfold g_cas. destruct (g_cas_lookup t on); [destruct (rv_hash_eqb r ov)|]; reflexivity.
+  - destruct (valid_typ U k); reflexivity.
 Qed.
 
 Lemma g_run_base U ops : forall t, t_base (fst (g_run U t ops)) = t_base t.
